@@ -76,67 +76,125 @@ let show_store (ds : delivery list) : string =
   if boxes = [] then "-" else
   String.concat "," (List.map (fun (n, ms) -> Mlutil.hex n ^ "=" ^ ms) boxes)
 
-let handle_smtp (ins : string list) (outs : string list) : bool =
-  match ins with
-  | [naming; maxr; maxb; da; acc; rej; ds; sto; dis; rejo; store; stream] ->
-        let f = str_of_field in
+
+(* rule labels: "keyhex=A|F|N|D<code>:<msghex>" *)
+let parse_smtp_rules t : (str * hook_ans) list =
+  List.map (fun e ->
+    match String.index_opt e '=' with
+    | None -> failwith ("bad rule " ^ e)
+    | Some i ->
+        let k = str_of_field (String.sub e 0 i) and v = String.sub e (i + 1) (String.length e - i - 1) in
+        (k, (match v.[0] with
+             | 'A' -> Allow | 'F' -> Defer | 'N' -> NoAns
+             | 'D' -> (match String.split_on_char ':' (String.sub v 1 (String.length v - 1)) with
+                       | [c; m] -> Deny (z_of_int (int_of_string c), str_of_field m)
+                       | _ -> failwith ("bad deny " ^ v))
+             | _ -> failwith ("bad rule value " ^ v)))) (split ',' t)
+
+let opt_list f = if f = "~" then None else
+  let inner = String.sub f 1 (String.length f - 2) in
+  Some (if inner = "" then [] else List.map str_of_field (String.split_on_char '+' inner))
+
+(* "subjecthex=N" | "subjecthex=O<mb>;<from>;<to>;<subj>"; N rules yield no entry *)
+let parse_msg_rules t : (str * overrides) list =
+  List.concat (List.map (fun e ->
+    match String.index_opt e '=' with
+    | None -> failwith ("bad rule " ^ e)
+    | Some i ->
+        let k = str_of_field (String.sub e 0 i) and v = String.sub e (i + 1) (String.length e - i - 1) in
+        if v = "N" then [] else
+        (match String.split_on_char ';' (String.sub v 1 (String.length v - 1)) with
+         | [mb; from; to_; subj] ->
+             [ (k, { ov_mailboxes = opt_list mb; ov_from = opt_str from; ov_to = opt_list to_; ov_subject = opt_str subj }) ]
+         | _ -> failwith ("bad msg rule " ^ v))) (split ',' t))
+
+let sort_within (dump : string) : string =
+  if dump = "-" then dump else
+  String.concat "," (List.map (fun b ->
+    let j = String.index b '=' in
+    let ms = List.sort compare (String.split_on_char '/' (String.sub b (j + 1) (String.length b - j - 1))) in
+    String.sub b 0 (j + 1) ^ String.concat "/" ms) (String.split_on_char ',' dump))
+
+let hooked (it : item) : bool =
+  match it with
+  | L (Mail (_, h)) | L (Rcpt (_, h)) -> h <> NoAns
+  | B (PBlock (_, _, Some _)) -> true
+  | _ -> false
+
+let handle_smtp (kind : string) (ins : string list) (outs : string list) : bool =
+  let f = str_of_field in
+  let go naming maxr maxb da acc rej ds sto dis rejo streams rules =
         let pol = load_cfg (bool_of_field da) (f acc) (f rej) (bool_of_field ds) (f sto) (f dis) (f rejo) in
         let c = { pol = pol; max_rcpt = z_of_int (int_of_string maxr); max_bytes = z_of_int (int_of_string maxb);
                   tls_enabled = false } in
         (match outs with
          | [replies; mt; rt; ht; dump; status] ->
-             let o = { t_mail = parse_mail_table mt; t_rcpt = parse_rcpt_table rt; t_mail_hook = [];
-                       t_rcpt_hook = []; t_hdr = parse_hdr_table ht; t_msg_hook = [] } in
-             let ((items, tr), _) = run_bytes c o (f stream) in
-             let m_replies = show_replies (replies_of tr) in
-             let m_store = show_store (deliveries_of tr) in
-             (* the oracles: the specifications applied to the implementation's answers *)
-             let dlg = attach items (parse_replies replies) in
-             let ent = entitled c None [] [] dlg in
+             let (mh, rh, gh) = rules in
+             let o = { t_mail = parse_mail_table mt; t_rcpt = parse_rcpt_table rt; t_mail_hook = mh;
+                       t_rcpt_hook = rh; t_hdr = parse_hdr_table ht; t_msg_hook = gh } in
+             let impl_replies = String.split_on_char '|' replies in
+             let par = kind = "luapar" in
              let v = ref [] in
-             if not (seq_ok false false O dlg) then v := "C03:sequencing" :: !v;
-             if not (List.for_all reply_ok dlg) then v := "C03:reply-shape" :: !v;
-             if List.length (List.concat (List.map snd dlg)) <> List.length (parse_replies replies)
-             then v := "C03:reply-count" :: !v;
-             if status <> "ok" then v := "C03:session-error" :: !v;
-             if show_store ent <> dump then begin
-               v := "C01:store-differs-from-what-the-dialogue-entitles" :: !v;
-               v := "C03:partial-phantom-or-misrouted-message" :: !v;
-               v := "C05:session-store-or-accept-rule" :: !v;
-               v := "C06:store-differs-from-what-the-dialogue-entitles" :: !v
+             let add x = if not (List.mem x !v) then v := x :: !v in
+             let m_replies = ref [] and m_deliv = ref [] and ent_all = ref [] in
+             List.iteri (fun idx stream ->
+               let ((items, tr), _) = run_bytes c o (f stream) in
+               m_replies := show_replies (replies_of tr) :: !m_replies;
+               m_deliv := !m_deliv @ deliveries_of tr;
+               let ir = parse_replies (try List.nth impl_replies idx with _ -> "-") in
+               (* the oracles: the specifications applied to the implementation's answers *)
+               let dlg = attach items ir in
+               ent_all := !ent_all @ entitled c None [] [] dlg;
+               if not (seq_ok false false O dlg) then add "C03:sequencing";
+               if not (List.for_all reply_ok dlg) then add "C03:reply-shape";
+               if List.length (List.concat (List.map snd dlg)) <> List.length ir then add "C03:reply-count";
+               (* C17: on every line a hook rule applies to, the reply must be the one the hook's answer dictates *)
+               List.iter2 (fun (it, r) ((_, mr), _) ->
+                 if hooked it && r <> mr then add "C17:reply-differs-from-hook-answer") dlg tr;
+               (* size rule on the implementation's dialogue *)
+               let size_viol = List.exists (fun (it, r) ->
+                 match it with
+                 | B (PBlock (body, _, _)) ->
+                     List.length body > int_of_string maxb && int_of_z (first_code r) = 250
+                 | L (Mail (MParsed (SzVal n, _), _)) ->
+                     int_of_z n > int_of_string maxb && int_of_z (first_code r) = 250
+                 | _ -> false) dlg in
+               if size_viol then add "C06:oversize-accepted";
+               let within_refused = List.exists (fun (it, r) ->
+                 match it with
+                 | B (PBlock (body, _, _)) ->
+                     List.length body <= int_of_string maxb && int_of_z (first_code r) = 552
+                 | _ -> false) dlg in
+               if within_refused then add "C06:within-limit-refused";
+               (* C05: a RCPT answered 250 beyond the recipient limit *)
+               let n = ref 0 in
+               List.iter (fun (it, r) ->
+                 let ok = int_of_z (first_code r) = 250 in
+                 match it with
+                 | L (Mail (_, _)) -> if ok then n := 0
+                 | L (Rcpt (_, _)) -> if ok then begin incr n; if !n > max 0 (int_of_string maxr) then add "C05:recipient-limit-exceeded" end
+                 | L Rset | L (Helo _) | L (Ehlo _) -> if ok then n := 0
+                 | B _ -> n := 0
+                 | _ -> ()) dlg) streams;
+             if status <> "ok" then add "C03:session-error";
+             let norm d = if par then sort_within d else d in
+             if norm (show_store !ent_all) <> dump then begin
+               add "C01:store-differs-from-what-the-dialogue-entitles";
+               add "C03:partial-phantom-or-misrouted-message";
+               add "C05:session-store-or-accept-rule";
+               add "C06:store-differs-from-what-the-dialogue-entitles";
+               add "C17:store-differs-from-what-dialogue-and-hook-answers-entitle"
              end;
-             (* size rule on the implementation's dialogue: an oversize block must be refused and
-                must leave nothing behind (the store clause is covered by the entitlement check) *)
-             let size_viol = List.exists (fun (it, r) ->
-               match it with
-               | B (PBlock (body, _, _)) ->
-                   List.length body > int_of_string maxb && int_of_z (first_code r) = 250
-               | L (Mail (MParsed (SzVal n, _), _)) ->
-                   int_of_z n > int_of_string maxb && int_of_z (first_code r) = 250
-               | _ -> false) dlg in
-             if size_viol then v := "C06:oversize-accepted" :: !v;
-             let within_refused = List.exists (fun (it, r) ->
-               match it with
-               | B (PBlock (body, _, _)) ->
-                   List.length body <= int_of_string maxb && int_of_z (first_code r) = 552
-               | _ -> false) dlg in
-             if within_refused then v := "C06:within-limit-refused" :: !v;
-             (* C05: a RCPT answered 250 beyond the recipient limit *)
-             let over = ref false in
-             let n = ref 0 in
-             List.iter (fun (it, r) ->
-               let ok = int_of_z (first_code r) = 250 in
-               match it with
-               | L (Mail (_, _)) -> if ok then n := 0
-               | L (Rcpt (_, _)) -> if ok then begin incr n; if !n > max 0 (int_of_string maxr) then over := true end
-               | L Rset | L (Helo _) | L (Ehlo _) -> if ok then n := 0
-               | B _ -> n := 0
-               | _ -> ()) dlg;
-             if !over then v := "C05:recipient-limit-exceeded" :: !v;
              let mine = List.filter (fun s -> String.length s > 3 && String.sub s 0 3 = pid) !v in
              let verdict = if mine = [] then "ok" else "fail:" ^ String.concat ";" (List.rev mine) in
-             Mlutil.print_model [m_replies; mt; rt; ht; m_store; "ok"] verdict
-         | _ -> Mlutil.print_model ["NO-OBSERVATION"] "fail:no-observation"); true
+             Mlutil.print_model [String.concat "|" (List.rev !m_replies); mt; rt; ht; norm (show_store !m_deliv); "ok"] verdict
+         | _ -> Mlutil.print_model ["NO-OBSERVATION"] "fail:no-observation"); true in
+  match ins with
+  | [naming; maxr; maxb; da; acc; rej; ds; sto; dis; rejo; _store; stream] ->
+      go naming maxr maxb da acc rej ds sto dis rejo [stream] ([], [], [])
+  | [naming; maxr; maxb; da; acc; rej; ds; sto; dis; rejo; _store; streams; _script; ml; rl; msl] ->
+      go naming maxr maxb da acc rej ds sto dis rejo (String.split_on_char '+' streams)
+        (parse_smtp_rules ml, parse_smtp_rules rl, parse_msg_rules msl)
   | _ -> false
 
 let () =
@@ -171,5 +229,5 @@ let () =
               else "fail:origin-rule"
           | _ -> "fail:no-answer" in
         Mlutil.print_model (List.map field_of_bool m) verdict
-    | "smtp", _ when handle_smtp ins outs -> ()
+    | "smtp", _ when handle_smtp kind ins outs -> ()
     | _ -> Mlutil.print_model ["UNKNOWN-KIND"] "ok")
